@@ -681,11 +681,15 @@ class Interp:
             return a
         if isinstance(a, (Closure, Native, JObj)) or isinstance(b, (Closure, Native, JObj)):
             return CondVal(c, a, b)
-        if isinstance(a, (JArr, ArrLit, CondVal)) or isinstance(b, (JArr, ArrLit, CondVal)):
+        if isinstance(a, (JArr, ArrLit, ObjLit, CondVal)) or isinstance(b, (JArr, ArrLit, ObjLit, CondVal)):
             return CondVal(c, a, b)
         return z3.If(c, self.term(a), self.term(b))
 
     def binary(self, op, a, b):
+        if isinstance(a, CondVal):
+            return self.ite(a.c, self.binary(op, a.a, b), self.binary(op, a.b, b))
+        if isinstance(b, CondVal):
+            return self.ite(b.c, self.binary(op, a, b.a), self.binary(op, a, b.b))
         conc = lambda x: isinstance(x, (int, float, str, bool)) or x is UNDEFINED or x is NULL
         if op in ('===', '!=='):
             if conc(a) and conc(b):
